@@ -39,7 +39,7 @@ def write_replay(pid, doc):
 
 
 # ---------------------------------------------------------------------------------------------
-def lean_stage(pid):
+def lean_stage(pid, tier="quick"):
     """build the property's theorems + driver, audit axioms. Never raises for proof failures."""
     import subprocess
     res = dict(build_ok=False, obligations=0, discharged=0, broken=[], forbidden=[], theorems={}, wall=0.0)
@@ -91,6 +91,11 @@ def lean_stage(pid):
     if res["forbidden"]:
         res["broken"] += [f"forbidden token: {h}" for h in res["forbidden"][:5]]
         res["discharged"] = 0
+    if tier == "thorough" and res["build_ok"]:
+        lc = leanbuild.leancheck(pid)
+        res["leanchecker"] = lc
+        if lc["ok"] is False:
+            res["broken"].append("leanchecker rejects a compiled module: " + lc["tail"][-200:])
     res["wall"] = time.time() - t0
     return res
 
@@ -288,7 +293,7 @@ def run_check(pid, tier, seed, t0):
         raise Infra(f"no check is registered for {pid}")
     spec = specs.SPECS[pid]
     known = findings.load(pid)
-    lean = lean_stage(pid)
+    lean = lean_stage(pid, tier)
     data, cached = collect.get_traces(seed, tier)
     records = data["records"]
     tie = tie_stage(spec, data, tier, seed)
